@@ -27,8 +27,18 @@ PYTHON_ASSUMPTIONS = [
 ]
 
 
+BASE_TRUSTED = [
+    "the VC generator /verif/pyvc (ast -> z3), itself unverified: guarded by the translation cross-check, the symbolic-vs-concrete "
+    "differential, the canary/cover vacuity guards and the seeded changes (DESIGN 11.6)",
+    "z3 5.1 (primary) and cvc5 1.0.3 (on unknown; every obligation again in the thorough tier)",
+    "Python semantics of the modelled subset, in particular: (P >> K) & (2^A - 1) on the payload integer reads A bits at bit offset "
+    "len - K - A and raises ValueError for K < 0; unbounded ints; dict insertion order",
+    "modular reasoning: a caller is checked against the callee's contract; sequence / loop induction as meta-rules",
+]
+
+
 def load_known():
-    p = os.path.join(VERIF, "known_findings.json")
+    p = os.environ.get("PYVC_KNOWN_FINDINGS", os.path.join(VERIF, "known_findings.json"))
     if not os.path.exists(p):
         return []
     with open(p) as f:
@@ -301,7 +311,10 @@ def write_evidence(pid, tier, seed, mod, units, results, obs, proved, refuted, u
     for o in (refuted + unknown + proved)[:8]:
         samples.append({k: o[k] for k in ("name", "unit", "verdict", "solver", "seconds", "nhyps")})
     slow = sorted(obs, key=lambda o: -o["seconds"])[:3]
-    trusted = sorted(set(getattr(mod, "TRUSTED", [])) | {f"{q}: {t}" for q, t in TRUSTED.items() if q in getattr(mod, "USES_EXTERNAL", [])})
+    trusted = BASE_TRUSTED + sorted(set(getattr(mod, "TRUSTED", [])) | {f"{q}: {t}" for q, t in TRUSTED.items() if q in getattr(mod, "USES_EXTERNAL", [])})
+    kinds = {}
+    for o in obs:
+        kinds[o["kind"]] = kinds.get(o["kind"], 0) + 1
     level = getattr(mod, "LEVEL", "proof")
     cov = {
         "obligations": len(obs),
@@ -311,6 +324,7 @@ def write_evidence(pid, tier, seed, mod, units, results, obs, proved, refuted, u
         "checker_cmd": f"python3-vt -m pyvc check {pid} --tier {tier}",
         "trusted_base": trusted,
         "by_back_end": by_solver,
+        "by_obligation_kind": kinds,
         "solver_seconds": secs,
         "slowest": [{"name": o["name"], "seconds": o["seconds"]} for o in slow],
         "units": len(units),
